@@ -48,6 +48,7 @@ import multiprocessing as mp
 import multiprocessing.connection as mpc
 import os
 import random
+import shutil
 import sys
 import time
 import warnings
@@ -161,13 +162,37 @@ class TimedPool:
     self.workers = []
 
 
-def judge(run, recs, items_by_label):
+def trace_plan(it):
+  """the part of an item's plan TraceC15 reads (call shapes with their lines; the wanted class)"""
+  pl = it.get("plan") or {"fam": "none"}
+  if pl["fam"] == "call":
+    return {"fam": "call", "c": pl["c"],
+            "calls": [{"npos": c["npos"], "kws": c["kws"], "line": c["line"]} for c in it["calls"]]}
+  if pl["fam"] == "provoke":
+    return {"fam": "provoke", "want": pl["want"]}
+  return {"fam": pl["fam"]}
+
+
+def judge(run, recs, items_by_label, cover=None):
+  """TLC judges every recorded run.  cover (a dict) collects what the COVER lines say: error
+  classes reported where the spec expects them, per family; names outside the pinned catalogue."""
   cases = [{"nlines": r["nlines"], "compiles": r["compiles"], "cline": r["cline"], "skip": r["skip"],
-            "mode": r["mode"], "events": r["events"], "crashed": r["crashed"], "errs": r["errs"]} for r in recs]
+            "mode": r["mode"], "events": r["events"], "crashed": r["crashed"], "errs": r["errs"],
+            "anntrail": r.get("anntrail", []), "plan": trace_plan(items_by_label[r["label"]])} for r in recs]
   if not cases:
     return 0
   nv, bad, res = tlc.validate_cases("TraceC15", cases, cfg=TRACE_CFG, timeout=1800, heap="4g")
   common.require(bad is None and not res.violated, "TraceC15 verdicts are total; TLC stopped:\n" + res.out[-3000:])
+  for c in tlc.parse_cases(res.out, "COVER"):
+    if cover is None:
+      continue
+    for cl in c["hit"]:
+      cover.setdefault("hit:" + c["fam"], {}).setdefault(cl, 0)
+      cover["hit:" + c["fam"]][cl] += 1
+    for nm in c["unknown"]:
+      cover.setdefault("unknown", {}).setdefault(nm, recs[c["i"] - 1]["label"])
+    if c["spurious"]:
+      cover["spurious"] = cover.get("spurious", 0) + c["spurious"]
   for c in tlc.parse_cases(res.out, "BAD"):
     r = recs[c["i"] - 1]
     fails = sorted(c["fails"])
@@ -184,19 +209,47 @@ def judge(run, recs, items_by_label):
       else:
         what = "clauses %s fail on %s: compiles=%s cline=%s events=%s errs=%s msgs=%s" % (
             fails, r["label"], r["compiles"], r["cline"], r["events"][-2:], r["errs"][:3], r.get("first_msgs"))
+      if c.get("attr"):
+        key += ":" + c["attr"]           # Outcome!Attribution (spec-computed, from oracle-side facts)
     run.violation(key, what, {"label": r["label"], "mode": r["mode"], "src": src, "fails": fails,
+                              "opts": items_by_label[r["label"]].get("opts") or {},
                               "record": {k: v for k, v in r.items() if k != "tb"}, "tb": r.get("tb", "")})
     run.add("bad_runs")
   return nv
 
 
-def build_inputs(run, thorough, plans):
+def classify_plans(cases):
+  """the exported plans of the model run, by family (deduplicated; one entry per plan and mode)"""
+  out = {"classic": [], "exo": [], "call": [], "provoke": [], "compose": [], "catalogue": None, "callclasses": None}
+  seen = set()
+  for c in cases:
+    if "catalogue" in c:
+      out["catalogue"], out["callclasses"] = sorted(c["catalogue"]), sorted(c["callclasses"])
+      continue
+    k = json.dumps(c, sort_keys=True)
+    if k in seen:
+      continue
+    seen.add(k)
+    fam = c["plan"]["fam"]
+    if fam in ("call", "provoke", "compose"):
+      out[fam].append(c)
+    elif c["muts"] and c["muts"][0][0].startswith("ws-"):
+      out["exo"].append(c)
+    elif c["muts"] and fam == "none":
+      out["classic"].append(c)
+  for k in ("classic", "exo", "call", "provoke", "compose"):
+    out[k].sort(key=lambda c: json.dumps(c, sort_keys=True))
+  return out
+
+
+def build_inputs(run, thorough, plans, fam, deps_dir):
   rng = random.Random(run.seed)
   items = []
 
-  def add(label, src, mode=None, fam="gen"):
-    items.append({"label": label, "src": src, "mode": mode or ("check" if rng.random() < 0.25 else "infer"),
-                  "family": fam})
+  def add(label, src, mode=None, fam="gen", **extra):
+    it = {"label": label, "src": src, "mode": mode or ("check" if rng.random() < 0.25 else "infer"), "family": fam}
+    it.update(extra)
+    items.append(it)
   for k, s in enumerate(progs_d.HAND):
     add("hand%02d" % k, s, "infer", "hand")
   base = progs_d.generate(run.seed, 5000 if thorough else 260)
@@ -209,7 +262,7 @@ def build_inputs(run, thorough, plans):
     src = pool[k % len(pool)]
     plan = plans[k % len(plans)]
     out = src
-    for kind, slot in plan:
+    for kind, slot, _ in plan:
       try:
         nt = max(1, len(progs_d.tokens(out)))
         pos = (slot * nt) // SLOTS + rng.randrange(max(1, nt // SLOTS))
@@ -220,6 +273,43 @@ def build_inputs(run, thorough, plans):
         break
     if out != src:
       add("mut%05d" % k, out, None, "mutant")
+  # exotic characters in pool texts (MutateExo, optionally after Precondition "ann")
+  exo = fam["exo"]
+  nx = 3000 if thorough else 2 * len(exo)
+  frng = random.Random(run.seed + 77)
+  fpool = [s for s in pool if "def " in s]
+  for k in range(nx):
+    c = exo[k % len(exo)]
+    (kind, slot, ch), = c["muts"]
+    pre = c["plan"]["fam"] == "pre"
+    src = (fpool if pre else pool)[frng.randrange(len(fpool if pre else pool))]
+    if pre:
+      src = c15_fam.add_bare_annotations(src)
+    out = c15_fam.insert_exotic(src, kind, slot, SLOTS, ch, frng.randrange(1000))
+    if out != src:
+      add("exo%05d" % k, out, c["mode"], "exo", base=src, harmless=(kind != "ws-token" or ch == "ff"),
+          annotated=pre and out.count("v_ann: int") > 0, plan={"fam": c["plan"]["fam"]})
+  # ill-typed calls: one text per callable shape, one call per line (mode alternates per plan)
+  calls = [c for c in fam["call"] if c["mode"] == "infer"]
+  for k, c in enumerate(calls):
+    src, cl = c15_fam.render_call(c["plan"])
+    add("call%05d" % k, src, "check" if (k + run.seed) % 4 == 0 else "infer", "call", plan=c["plan"], calls=cl)
+  # one provoking text per error class / formatter, in both modes
+  for c in fam["provoke"]:
+    pl = c["plan"]
+    opts = {o: True for o in pl["opts"]}
+    if pl["deps"]:
+      opts["pythonpath"] = deps_dir
+    add("provoke:%s:%s" % (pl["id"], c["mode"]), pl["src"], c["mode"], "provoke", plan=pl, opts=opts)
+  # composed texts with one exotic character (mode alternates per plan)
+  comp = [c for c in fam["compose"] if c["mode"] == "infer"]
+  for k, c in enumerate(comp):
+    pl = c["plan"]
+    b, text, line = c15_fam.render_compose(pl)
+    common.require(text is not None, "composed text has no %s position in region %s: %r" % (pl["place"], pl["region"], pl))
+    lab = "compose:%s:%s:%s:%s:%s:%s" % (pl["pre"], pl["tail"], "eol" if pl["eol"] else "noeol", pl["region"], pl["place"], pl["ch"])
+    add(lab, text, "check" if (k + run.seed) % 5 == 0 else "infer", "compose", plan=pl, base=b, at_line=line,
+        harmless=pl["harmless"])
   # texts CPython rejects in ways a token mutation rarely produces
   for k, s in enumerate(EDGE):
     add("edge%02d" % k, s, "infer", "edge")
@@ -246,6 +336,37 @@ def build_inputs(run, thorough, plans):
   return items
 
 
+def confirm_language(run, items):
+  """The spec's statements about the LANGUAGE, confirmed against CPython on every planned text
+  (disagreement = machinery failure, exit 2): the binding faults of every call of the call family;
+  an exotic character never adds a line and, where the spec calls it harmless, leaves compile()'s
+  verdict and blamed line unchanged, otherwise makes the text not compilable."""
+  ncalls = 0
+  for it in items:
+    if it["family"] == "call":
+      _, outs = c15_fam.cpython_call_outcomes(it["plan"])
+      for expr, faults, got in outs:
+        ncalls += 1
+        common.require((got == "" and not faults) or got in faults,
+                       "Outcome!BindingFaults disagrees with CPython on %s of %s: spec %s, CPython %r"
+                       % (expr, it["label"], faults, got))
+    if it["family"] in ("compose", "exo"):
+      ob, ot = c15_run.oracle(it["base"]), c15_run.oracle(it["src"])
+      common.require(len(it["base"].split("\n")) == len(it["src"].split("\n")), "exotic character added a line: " + it["label"])
+      if it["family"] == "compose":
+        pl = it["plan"]
+        common.require(ob[0] == pl["basecompiles"] and ot[0] == pl["compiles"],
+                       "Outcome!ComposeCompiles disagrees with CPython on %s: base %s text %s" % (it["label"], ob, ot))
+      if it["harmless"]:
+        common.require(ob[:2] == ot[:2], "Outcome!Harmless disagrees with CPython on %s: base %s text %s (%r)"
+                       % (it["label"], ob, ot, it["src"][:400]))
+        run.add("exotic_harmless_confirmed")
+      else:
+        common.require(not ot[0], "a non-harmless exotic character left %s compilable" % it["label"])
+        run.add("exotic_invalid_confirmed")
+  run.put("call_bindings_confirmed_against_cpython", ncalls)
+
+
 EDGE = [
     "x = (\n", "if x:\n", "def f(:\n pass\n", "x = 1\n  y = 2\n", "return 1\n", "x = '''abc\n", "\x00", "x = 1\n\x00\n",
     "def f(a, a): pass\n", "a, *b, *c = x\n", "f'{'\n", "if 1:\n\tx=1\n        y=2\n", "await x\n",
@@ -260,9 +381,11 @@ EDGE = [
 ]
 
 
-def _case(events, compiles=True, cline=0, nlines=3, skip=False, mode="infer", crashed=False, errs=()):
+def _case(events, compiles=True, cline=0, nlines=3, skip=False, mode="infer", crashed=False, errs=(), anntrail=(),
+          plan=None):
   return {"nlines": nlines, "compiles": compiles, "cline": cline, "skip": skip, "mode": mode,
-          "events": [list(e) for e in events], "crashed": crashed, "errs": [list(e) for e in errs]}
+          "events": [list(e) for e in events], "crashed": crashed, "errs": [list(e) for e in errs],
+          "anntrail": list(anntrail), "plan": plan or {"fam": "none"}}
 
 
 _MAIN = [("Read", "ok"), ("Directors", "ok"), ("Compile", "ok"), ("Blocks", "ok"), ("Fold", "ok")]
@@ -287,22 +410,73 @@ SPEC_CASES = [
     (_case(_MAIN + [("Run", "ok")] + _TAIL, errs=[("name-error", 0)]), ["line-outside-file"]),
     (_case(_MAIN + [("Run", "ok")] + _TAIL, errs=[("name-error", 4)]), ["line-outside-file"]),
     (_case(_MAIN + [("Run", "ok")] + _TAIL, errs=[("python-compiler-error", 1)]), ["compiler-error-on-compilable"]),
+    # a string annotation that is not an expression: the caught sub-Compile failure is reported as one compiler error
+    (_case(_MAIN + [("Compile", "CompileError"), ("Run", "ok")] + _TAIL, errs=[("name-error", 1), ("python-compiler-error", 2)]), []),
+    (_case(_MAIN + [("Compile", "CompileError"), ("Run", "ok")] + _TAIL,
+           errs=[("python-compiler-error", 1), ("python-compiler-error", 2)]), ["compiler-error-on-compilable"]),
+    (_case(_MAIN + [("Compile", "CompileError"), ("Run", "ok")] + _TAIL, errs=[("python-compiler-error", 4)]), ["line-outside-file"]),
     (_case([("Read", "ok"), ("Directors", "SyntaxError")], compiles=False, cline=2, errs=[("python-compiler-error", 2)]), []),
     (_case([("Read", "ok"), ("Directors", "SyntaxError")], compiles=False, cline=2, errs=[("python-compiler-error", 1)]), ["blamed-line"]),
-    (_case([("Read", "ok"), ("Directors", "SyntaxError")], compiles=True), ["stage-order"]),
+    (_case([("Read", "ok"), ("Directors", "SyntaxError")], compiles=True), ["compiler-error-on-compilable", "stage-order"]),
+    (_case(_MAIN[:2] + [("Compile", "CompileError")], compiles=True, errs=[("python-compiler-error", 2)]),
+     ["compiler-error-on-compilable", "stage-order"]),
+    # the known defect: ` = ...` appended to a bare-annotation line that carries more code (attribution by the spec)
+    (_case([("Read", "ok"), ("Directors", "SyntaxError")], compiles=True, errs=[("python-compiler-error", 2)], anntrail=[2]),
+     ["compiler-error-on-compilable", "stage-order"], "bare-annotation-line-with-trailing-code"),
+    (_case([("Read", "ok"), ("Directors", "SyntaxError")], compiles=True, errs=[("python-compiler-error", 3)], anntrail=[2]),
+     ["compiler-error-on-compilable", "stage-order"], ""),          # another line: not that defect
+    (_case(_MAIN + [("Run", "ok")] + _TAIL, errs=[("name-error", 4)], anntrail=[2]), ["line-outside-file"], ""),
     (_case(_MAIN + [("Run", "ok")] + _TAIL, compiles=False, cline=1), ["stage-order"]),
     (_case(_MAIN[:4] + [("Fold", "ConstantError")], errs=[("python-compiler-error", 1)]), []),
 ]
 
 
+_F = {"kind": "def", "ps": ["self", "b"], "dflt": False, "star": False, "kw": False, "kwonly": False, "ann": False, "val": ""}
+_CALLPLAN = {"fam": "call", "c": _F, "calls": [{"npos": 0, "kws": [], "line": 3}, {"npos": 2, "kws": [], "line": 4},
+                                               {"npos": 3, "kws": ["first"], "line": 5}, {"npos": 1, "kws": ["zz"], "line": 6}]}
+_RUN_OK = _MAIN + [("Run", "ok")] + _TAIL
+# synthetic runs of the planned families with the COVER line the spec must print: (case, hit, unknown, spurious)
+COVER_CASES = [
+    # f() misses both, f(1,'s') binds, f(1,'s',None,self='s') has too many and a duplicate, f(1, zz=1) unknown + missing
+    (_case(_RUN_OK, nlines=7, plan=_CALLPLAN, errs=[("missing-parameter", 3), ("wrong-arg-count", 5), ("wrong-keyword-args", 6)]),
+     ["missing-parameter", "wrong-arg-count", "wrong-keyword-args"], [], 0),
+    (_case(_RUN_OK, nlines=7, plan=_CALLPLAN, errs=[("duplicate-keyword-argument", 5), ("missing-parameter", 6)]),
+     ["duplicate-keyword-argument", "missing-parameter"], [], 0),
+    (_case(_RUN_OK, nlines=7, plan=_CALLPLAN, errs=[("missing-parameter", 4)]), [], [], 1),       # the well-bound call blamed
+    (_case(_RUN_OK, nlines=7, plan=_CALLPLAN, errs=[("wrong-arg-count", 3)]), [], [], 0),          # not the expected class
+    (_case(_RUN_OK, nlines=7, plan=dict(_CALLPLAN, c=dict(_F, ann=True)), errs=[("wrong-arg-types", 4)]),
+     ["wrong-arg-types"], [], 0),                                                                   # b: int gets 's'
+    (_case(_RUN_OK, nlines=7, plan=dict(_CALLPLAN, c=dict(_F, kind="method")), errs=[("missing-parameter", 3), ("wrong-arg-count", 4)]),
+     ["missing-parameter", "wrong-arg-count"], [], 0),                                              # the receiver is bound first
+    (_case(_RUN_OK, plan={"fam": "provoke", "want": "bad-slots"}, errs=[("bad-slots", 2)]), ["bad-slots"], [], 0),
+    (_case(_RUN_OK, plan={"fam": "provoke", "want": "bad-slots"}, errs=[("name-error", 2)]), None, [], 0),
+    (_case(_RUN_OK, errs=[("brand-new-error", 2)]), [], ["brand-new-error"], 0),
+]
+
+
 def spec_selftest():
-  nv, bad, res = tlc.validate_cases("TraceC15", [c for c, _ in SPEC_CASES], cfg=TRACE_CFG, timeout=600, heap="2g")
+  allc = [c[0] for c in SPEC_CASES] + [c[0] for c in COVER_CASES]
+  nv, bad, res = tlc.validate_cases("TraceC15", allc, cfg=TRACE_CFG, timeout=600, heap="2g")
   common.require(bad is None and not res.violated, "TraceC15 stopped on the self-test cases:\n" + res.out[-2000:])
-  got = {c["i"]: sorted(c["fails"]) for c in tlc.parse_cases(res.out, "BAD")}
-  for k, (_, want) in enumerate(SPEC_CASES, 1):
-    common.require(got.get(k, []) == sorted(want),
-                   "Outcome!Verdict self-test case %d: expected %s, TLC says %s" % (k, want, got.get(k, [])))
-  return len(SPEC_CASES)
+  got = {c["i"]: c for c in tlc.parse_cases(res.out, "BAD")}
+  for k, t in enumerate(SPEC_CASES, 1):
+    want = sorted(t[1])
+    have = sorted(got[k]["fails"]) if k in got else []
+    common.require(have == want, "Outcome!Verdict self-test case %d: expected %s, TLC says %s" % (k, want, have))
+    if len(t) > 2:
+      common.require(got[k]["attr"] == t[2], "Outcome!Attribution self-test case %d: expected %r, TLC says %r"
+                     % (k, t[2], got[k]["attr"]))
+  cov = {c["i"]: c for c in tlc.parse_cases(res.out, "COVER")}
+  for k, (_, hit, unknown, spurious) in enumerate(COVER_CASES, len(SPEC_CASES) + 1):
+    c = cov.get(k)
+    if hit is None or (not hit and not unknown and not spurious):
+      common.require(c is None, "TraceC15 COVER self-test case %d: expected no line, TLC says %s" % (k, c))
+      continue
+    common.require(c is not None and sorted(c["hit"]) == sorted(hit) and sorted(c["unknown"]) == sorted(unknown)
+                   and c["spurious"] == spurious,
+                   "TraceC15 COVER self-test case %d: expected hit=%s unknown=%s spurious=%d, TLC says %s"
+                   % (k, hit, unknown, spurious, c))
+  return len(allc)
 
 
 FOUND = [
@@ -325,6 +499,11 @@ FOUND = [
     "from typing import Callable, Concatenate\ndef f(x: Callable[[P]]) -> Callable[Concatenate[int]]:return x\n(f(g))\n",
     "from typing import Callable, Concatenate\ndef f(x) -> Callable[Concatenate[int]]: return x\nf(len)\n",
     "x: int\ntype B[x] = tuple[x]\n",
+    # found while strengthening (seeded-change round): three escaped exceptions and the bare-annotation rewrite
+    "t = ()[::0]\n", "t = (1, 2, 3)\nu = t[::0]\n",
+    "import collections\nP = collections.namedtuple('P', ['a', 1])\n",
+    "x = {0: 1, 2: 2, 3: 3, 4: 4, 5: 5, 6: 6, 7: 7, 8: 8, 9: 9, 10: 10, 11: 11, 12: 12, 13: 13, 14: 14, 15: 15, []: 1}\n",
+    "def f():\n  x: int; y = 1\n", "def f(): x: int; y = 1\n", "def f():\n  class K:\n    x: int;\n",
     # fixture typeshed: modules pytype's own overlays look up (an artefact of the sandbox when absent)
     "from typing import Pattern, Match\nimport re\np: Pattern[str] = re.compile('a')\n",
     "from typing_extensions import Literal\ndef f(x: Literal[1]) -> str: ...\n",
@@ -351,7 +530,8 @@ def main():
   if a.replay:
     with open(a.replay) as f:
       case = json.load(f)["case"]
-    items = [{"label": case["label"], "src": case["src"], "mode": case.get("mode", "infer"), "family": "replay"}]
+    items = [{"label": case["label"], "src": case["src"], "mode": case.get("mode", "infer"), "family": "replay",
+              "opts": case.get("opts") or {}}]
     recs = TimedPool(1).map(items, lambda it: cap_file)
     recs = [r for r in recs if "events" in r]
     n = judge(run, recs, {it["label"]: it for it in items})
@@ -360,9 +540,21 @@ def main():
     return run.finish()
 
   # ---- 1. the design: the allowed behaviours satisfy C15; export the mutation plan
-  # (a) inputs x mutation plans x main pipeline (no sub-runs: `muts` only multiplies the state space),
-  #     exports the plans; (b) all inputs x pipeline with sub-runs (annotation evaluation) nested <= 2
-  r = tlc.run("Outcome", model_cfg(3, 2 if thorough else 1, True, 0), workers=1, timeout=3000, seed=run.seed)
+  # (a) inputs x mutation plans x main pipeline (no sub-runs: `muts` only multiplies the state space)
+  #     + the planned families (calls, provoking texts, composed texts, exotic characters in pool
+  #     texts), exports the plans; quick enumerates a seed-chosen slice of each family (flag set 0 and
+  #     one more of the 32 flag sets of the callables; one of 24 slices of the composed texts, which
+  #     every (precondition, tail, region) meets twice; form feed and one more character in pool
+  #     texts), thorough all of them;
+  # (b) all inputs x pipeline with sub-runs (annotation evaluation) nested <= 2
+  if thorough:
+    flags, chars, nsl, sl = list(range(NFLAGSETS)), list(CHARSEQ), 1, 0
+  else:
+    flags = [0, 1 + run.seed % (NFLAGSETS - 1)]
+    chars = ["ff", CHARSEQ[1 + run.seed % (len(CHARSEQ) - 1)]]
+    nsl, sl = QUICK_SLICES, run.seed % QUICK_SLICES
+  r = tlc.run("Outcome", model_cfg(3, 2 if thorough else 1, True, 0, ("call", "provoke", "compose"), chars, flags, nsl, sl),
+              workers=1, timeout=3000, seed=run.seed)
   r2 = tlc.run("Outcome", model_cfg(3, 0, False, 11 if thorough else 9), workers=4, timeout=3000, seed=run.seed)
   for rr in (r, r2):
     if rr.violated or rr.rc != 0:
@@ -372,29 +564,62 @@ def main():
   run.put("transitions", r.generated + r2.generated)
   run.put("model_states_mutation_part", r.distinct)
   run.put("model_states_subrun_part", r2.distinct)
-  plans = sorted({json.dumps(c["muts"]) for c in r.cases if c["muts"]})
+  fam = classify_plans(r.cases)
+  plans = sorted({json.dumps(c["muts"]) for c in fam["classic"]})
   plans = [json.loads(p) for p in plans]
   common.require(len(plans) >= 4 * SLOTS, "mutation plan export too small: %d" % len(plans))
   random.Random(run.seed).shuffle(plans)
   run.put("mutation_plans", len(plans))
-  print("  [model] states=%d+%d plans=%d t=%.0fs" % (r.distinct, r2.distinct, len(plans), time.time() - run.t0), flush=True)
+  for k in ("exo", "call", "provoke", "compose"):
+    run.put("plans_" + k, len(fam[k]))
+  common.require(fam["catalogue"] and len(fam["catalogue"]) >= 50, "the pinned catalogue was not exported")
+  common.require(len(fam["exo"]) >= 2 * 3 * SLOTS * len(chars) and len(fam["call"]) >= 2 * 150 * len(flags)
+                 and len(fam["provoke"]) >= 2 * len(fam["catalogue"]) and len(fam["compose"]) >= 2 * 500,
+                 "plan export too small: %s" % {k: len(v) for k, v in fam.items() if isinstance(v, list)})
+  print("  [model] states=%d+%d plans=%d exo=%d call=%d provoke=%d compose=%d t=%.0fs" % (
+      r.distinct, r2.distinct, len(plans), len(fam["exo"]), len(fam["call"]), len(fam["provoke"]), len(fam["compose"]),
+      time.time() - run.t0), flush=True)
 
   run.put("spec_selftest_cases", spec_selftest())
 
   # ---- 2. exploration
-  items = build_inputs(run, thorough, plans)
-  by_label = {it["label"]: it for it in items}
-  common.require(len(by_label) == len(items), "duplicate labels")
-  caps = {"stdlib": cap_file}
-  procs = 10 if thorough else 8
-  # long items first so that the tail of the run is short
-  order = sorted(range(len(items)), key=lambda k: -len(items[k]["src"]) if items[k]["family"] == "stdlib" else 0)
-  items = [items[k] for k in order]
-  res = TimedPool(procs).map(items, lambda it: caps.get(it["family"], cap_small))
+  deps_dir = os.path.join(tlc.BUILD, "c15_pyi_%d" % os.getpid())
+  table = {json.dumps(c["plan"], sort_keys=True): c["plan"] for c in fam["provoke"]}
+  c15_fam.write_deps(deps_dir, table.values())
+  try:
+    items = build_inputs(run, thorough, plans, fam, deps_dir)
+    by_label = {it["label"]: it for it in items}
+    common.require(len(by_label) == len(items), "duplicate labels")
+    confirm_language(run, items)
+    caps = {"stdlib": cap_file}
+    procs = 10 if thorough else 8
+    # long items first so that the tail of the run is short
+    order = sorted(range(len(items)), key=lambda k: -len(items[k]["src"]) if items[k]["family"] == "stdlib" else 0)
+    items = [items[k] for k in order]
+    tp = TimedPool(procs, keep=True)
+    try:
+      res = tp.map(items, lambda it: caps.get(it["family"], cap_small))
+      # a call text that crashed is taken apart: one text per call, so that every failing call gets
+      # its own record (a known crash of one call cannot hide a new crash of another one)
+      extra = []
+      for it, rec in zip(items, res):
+        if it["family"] == "call" and rec and (rec.get("crashed") or "died" in rec or "timeout" in rec):
+          for j in range(len(it["calls"])):
+            src1, cl1 = c15_fam.render_call(it["plan"], only=j)
+            extra.append({"label": "%s#%02d" % (it["label"], j), "src": src1, "mode": it["mode"], "family": "call",
+                          "plan": it["plan"], "calls": cl1, "single": True})
+      if extra:
+        res += tp.map(extra, lambda it: cap_small)
+        items += extra
+        by_label.update({it["label"]: it for it in extra})
+    finally:
+      tp.close()
+  finally:
+    shutil.rmtree(deps_dir, ignore_errors=True)
   print("  [explored] %d inputs t=%.0fs" % (len(items), time.time() - run.t0), flush=True)
   recs = []
   for it, rec in zip(items, res):
-    fam = it["family"]
+    fam_ = it["family"]
     if rec is None or "harness_error" in (rec or {}):
       raise common.Machinery("worker failed on %s: %r" % (it["label"], rec))
     if "timeout" in rec:
@@ -405,7 +630,8 @@ def main():
       run.violation("C15:escaped:worker-process-died", "the interpreter died while analysing %s" % it["label"],
                     {"label": it["label"], "mode": it["mode"], "src": it["src"]})
       continue
-    run.add("inputs_" + fam)
+    run.add("inputs_" + fam_)
+    run.cov["secs_" + fam_] = round(run.cov.get("secs_" + fam_, 0) + rec.get("secs", 0), 1)
     run.add("compilable" if rec["compiles"] else "not_compilable")
     if rec["compiles"] and not rec["crashed"] and rec["errs"]:
       run.add("results_with_errors")
@@ -422,15 +648,42 @@ def main():
       run.add("fold_errors")
     if last[1] == "SkipFileError":
       run.add("skipped")
+    # what the new families exercised (vacuity guards below)
+    if fam_ == "call" and not it.get("single"):
+      lines = {}
+      for e in rec["errs"]:
+        lines.setdefault(e[1], set()).add(e[0])
+      for c in it["calls"]:
+        if c["faults"] or c["tfault"]:
+          run.add("failed_calls")
+          if c["npos"] == 0 and not c["kws"]:
+            run.add("failed_calls_empty_arglist")
+            if it["plan"]["c"]["ps"] and it["plan"]["c"]["ps"][0] in ("self", "cls") and it["plan"]["c"]["kind"] in ("def", "lambda"):
+              run.add("failed_calls_empty_arglist_self_or_cls_function")
+          if lines.get(c["line"]):
+            run.add("failed_calls_reported")
+    if fam_ in ("compose", "exo") and it["harmless"]:
+      # texts pytype rewrites before compiling (a bare annotation inside a plain function)
+      rewritten = (it["plan"]["pre"] in ("ann-func", "ann-method", "ann-semi") if fam_ == "compose"
+                   else bool(it.get("annotated")))
+      if rewritten:
+        run.add("harmless_exotic_in_rewritten_text")
+        if not rec["compiles"]:
+          run.add("harmless_exotic_in_rewritten_noncompilable_text")
+        elif rec["errs"] and max(e[1] for e in rec["errs"]) >= rec["nlines"] - 1:
+          run.add("harmless_exotic_in_rewritten_text_with_error_on_last_line")
     recs.append(rec)
-  nv = judge(run, recs, by_label)
+  cover = {}
+  nv = judge(run, recs, by_label, cover)
   run.put("traces_validated_against_impl", nv)
   run.put("evaluations", nv)
   distinct = {hashlib.sha1(by_label[r["label"]]["src"].encode("utf8", "replace")).hexdigest()
               for r in recs if r["nlines"] >= 3}
   run.put("distinct_nontrivial", len(distinct))
   run.put("rule", "one case = one source text analysed by io.check_or_generate_pyi (infer or check mode); families: "
-          "hand-written, generated (all constructs), spec-planned token mutants, edge texts, minimal inputs of earlier "
+          "hand-written, generated (all constructs), spec-planned token mutants, spec-planned ill-typed calls (one text per "
+          "callable shape, one call per line), one provoking text per error class of the pinned catalogue, spec-planned "
+          "composed texts and pool texts with one exotic line-separator character, edge texts, minimal inputs of earlier "
           "findings (both modes), pytype test snippets, stdlib files; non-trivial = at least 3 lines; distinct by text")
   for r in recs:
     if r["label"].startswith(("mut", "gen")) and r["nlines"] <= 12:
@@ -439,9 +692,40 @@ def main():
   need = {"compilable": 2500 if thorough else 300, "not_compilable": 2500 if thorough else 150,
           "results_with_errors": 500 if thorough else 80, "inputs_stdlib": 40 if thorough else 6,
           "inputs_upstream": 1000 if thorough else 100, "fold_errors": 2, "skipped": 1,
-          "runs_with_subruns": 200 if thorough else 20, "subruns_compile_error_caught": 1}
-  for k, v in need.items():
-    common.require(run.cov.get(k, 0) >= v, "vacuity: %s = %d < %d" % (k, run.cov.get(k, 0), v))
+          "runs_with_subruns": 200 if thorough else 20, "subruns_compile_error_caught": 1,
+          # the strengthened families
+          "inputs_call": 4000 if thorough else 250, "inputs_provoke": 100, "inputs_compose": 10000 if thorough else 450,
+          "inputs_exo": 1000 if thorough else 40,
+          "failed_calls": 100000 if thorough else 5000, "failed_calls_reported": 90000 if thorough else 4500,
+          "failed_calls_empty_arglist": 1500 if thorough else 100,
+          "failed_calls_empty_arglist_self_or_cls_function": 100 if thorough else 8,
+          "exotic_harmless_confirmed": 8000 if thorough else 350, "exotic_invalid_confirmed": 2000 if thorough else 80,
+          "harmless_exotic_in_rewritten_text": 2000 if thorough else 80,
+          "harmless_exotic_in_rewritten_noncompilable_text": 800 if thorough else 30,
+          "harmless_exotic_in_rewritten_text_with_error_on_last_line": 400 if thorough else 15}
+  vac = ["%s = %d < %d" % (k, run.cov.get(k, 0), v) for k, v in need.items() if run.cov.get(k, 0) < v]
+  # vacuity on the error names observed, as named by TraceC15's COVER lines: every class of the pinned
+  # catalogue is reported by its provoking text; the call family alone reaches every failed-call class
+  hit_p, hit_c = cover.get("hit:provoke", {}), cover.get("hit:call", {})
+  run.put("error_classes_provoked", len(hit_p))
+  run.put("call_classes_reported_where_expected", hit_c)
+  run.put("calls_without_fault_with_binding_error", cover.get("spurious", 0))
+  missing = sorted(set(fam["catalogue"]) - set(hit_p))
+  if missing:
+    vac.append("error classes of the pinned catalogue not provoked by their text: %s" % missing)
+  missing = sorted(set(fam["callclasses"]) - set(hit_c))
+  if missing:
+    vac.append("failed-call classes never reported where the spec expects them: %s" % missing)
+  # a fault that is reported as a VIOLATION may itself empty a counter (a crashing report path reports
+  # nothing): the violation is the verdict then, the guard failure is logged
+  if vac and run.violations:
+    run.diverge("vacuity guards not met in a run with violations: " + "; ".join(vac))
+  else:
+    common.require(not vac, "vacuity: " + "; ".join(vac))
+  for nm, lab in sorted(cover.get("unknown", {}).items()):
+    run.diverge("an error class outside the pinned catalogue (Outcome!ErrorClasses) was reported: %s on %s" % (nm, lab))
+  if cover.get("spurious"):
+    run.diverge("%d calls the binding rules accept got a binding error (C13's subject, not judged here)" % cover["spurious"])
   run.assumptions += [
       "compile() of CPython 3.12 is the oracle for compilability and the blamed line; where it blames no line "
       "(NUL byte) the two line clauses are vacuous",
